@@ -55,3 +55,28 @@ Theorem C08_char_slice_eq_byte_slice :
       cp_slice o ai aj = byte_slice o (bi, bj).
 Proof. exact (char_slice_eq_byte_slice_reach the_cfg C08_facts_ok). Qed.
 Print Assumptions C08_char_slice_eq_byte_slice.
+
+(* "maps each unreplaced character to itself" (reading of DESIGN section 6, made precise per byte):
+   `Tracks cfg o s q p ex` follows byte q of the original through batches none of which replaces it (`kept`), p is its
+   offset in the rewritten text (`newpos`), ex records that it never became the first byte of the rewritten text.
+   Such a byte is still there; its mapped range [m2o p, m2o (p+1)) contains its original range [q, q+1); and its mapped
+   start is exactly q unless a deletion in front of it once made it the first byte of the text (then "start maps to
+   start" wins and the entry was forced to 0) *)
+Theorem C08_unreplaced_maps_to_self :
+  forall o s q p ex, wf_text o = true -> Tracks the_cfg o s q p ex ->
+    Reach the_cfg o s /\
+    nth_error (cur s) p = nth_error o q /\ q < length o /\
+    nth p (m2o s) 0 <= q /\ S q <= nth (S p) (m2o s) 0 /\
+    (ex = true \/ q = 0 -> nth p (m2o s) 0 = q).
+Proof. exact (unreplaced_maps_to_self the_cfg C08_facts_ok). Qed.
+Print Assumptions C08_unreplaced_maps_to_self.
+
+(* the bytes of one unreplaced character stay adjacent: edits begin and end on character boundaries, so nothing can be
+   inserted between a kept byte and a following kept continuation byte.  Together with the previous theorem: the first
+   byte of an unreplaced character at q..q+w gives m2o p <= q (= q when exact), its last byte gives q+w <= m2o (p+w) *)
+Theorem C08_kept_character_stays_contiguous :
+  forall src es start q,
+    edits_ok_from src start es = true -> start <= q -> kept es q = true -> kept es (S q) = true ->
+    is_boundary src (S q) = false -> newpos_from es start (S q) = S (newpos_from es start q).
+Proof. exact newpos_succ. Qed.
+Print Assumptions C08_kept_character_stays_contiguous.
